@@ -1031,7 +1031,25 @@ impl Visitor<Diagnostic> for LibraryRenderer {
         self.write_ws("(");
 
         if let Some(qualifier) = &node.qualifier {
-            self.write_ws(qualifier.to_string().as_str());
+            use dsl::sfc::ActionQualifier;
+            let (name, time) = match qualifier {
+                ActionQualifier::N => ("N", None),
+                ActionQualifier::R => ("R", None),
+                ActionQualifier::S => ("S", None),
+                ActionQualifier::L => ("L", None),
+                ActionQualifier::D => ("D", None),
+                ActionQualifier::P => ("P", None),
+                ActionQualifier::SD(time) => ("SD", Some(time)),
+                ActionQualifier::DS(time) => ("DS", Some(time)),
+                ActionQualifier::SL(time) => ("SL", Some(time)),
+                ActionQualifier::PR(time) => ("P1", Some(time)),
+                ActionQualifier::PF(time) => ("P0", Some(time)),
+            };
+            self.write_ws(name);
+            if let Some(time) = time {
+                self.write_ws(",");
+                self.visit_action_time_kind(time)?;
+            }
             if !node.indicators.is_empty() {
                 self.write_ws(",");
             }
